@@ -19,7 +19,8 @@ REQUIRED = ["path-model", "open-audit", "own-path-sweep", "redirect-follow", "au
 RULE = ("Sandbox root/{secret.txt, static-secret.txt, static2/s.txt, static/...}; served directory static/ = {a.txt, index.html, x.html, ..name, .hidden, "
         "%2e%2e, é.txt, dir/{index.html,b.txt}, dir2/c.txt (no index), static/inner.txt}. Exhaustive request paths over the 21-segment alphabet {'', '.', '..', "
         "a.txt, dir, dir2, ..name, %2e%2e, index.html, x, x.html, é.txt, static, static2, secret.txt, nope, index, b.txt, .hidden, static-secret.txt, sock (a unix socket: exists but is not a regular file)} to depth 3 (thorough 4) with/without "
-        "trailing slash (plus the empty path) x Files/Pages x WSGI/ASGI, directory given absolute (full depth), relative to a changed cwd and package-relative (depth 2). "
+        "trailing slash (plus the empty path) x Files/Pages x WSGI/ASGI, directory given absolute (full depth; also with a custom handle_404 application and non-default cache settings), relative to a changed cwd and "
+        "package-relative (depth 2); one file sits at a path longer than 255 characters. "
         "Non-trivial = path containing '..', '.', an empty or dotted segment, or touching a directory; paths are distinct by construction.")
 ASSUMPTIONS = [
     "resolution is lexical (symbolic links are not part of the workload)",
@@ -29,9 +30,9 @@ ASSUMPTIONS = [
 ]
 
 TREE = {"a.txt": "A-file", "index.html": "ROOT-INDEX", "x.html": "X-HTML", "..name": "DOTDOT-NAME", ".hidden": "HIDDEN", "%2e%2e": "PERCENT",
-        "é.txt": "UNICODE", "dir/index.html": "DIR-INDEX", "dir/b.txt": "B-file", "dir2/c.txt": "C-file", "static/inner.txt": "INNER"}
+        "é.txt": "UNICODE", "L" * 100 + "/" + "M" * 100 + "/" + "N" * 100 + ".txt": "LONG-PATH", "dir/index.html": "DIR-INDEX", "dir/b.txt": "B-file", "dir2/c.txt": "C-file", "static/inner.txt": "INNER"}
 OUTSIDE = {"secret.txt": "SECRET-1", "static-secret.txt": "SECRET-2", "static2/s.txt": "SECRET-3", "a.txt": "OUTER-A", "index.html": "OUTER-INDEX"}
-DIRS = {""} | {os.path.dirname(k) for k in TREE if "/" in k}
+DIRS = {""} | {os.path.dirname(k) for k in TREE if "/" in k} | {"L" * 100}
 SEGS = ["", ".", "..", "a.txt", "dir", "dir2", "..name", "%2e%2e", "index.html", "x", "x.html", "é.txt", "static", "static2", "secret.txt", "nope",
         "index", "b.txt", ".hidden", "static-secret.txt", "sock"]
 
@@ -224,7 +225,21 @@ def run(ctx):
             "relative-dot": (served, dict(directory="./static/../static/")),
             "package": (os.path.join(pkg, "static"), dict(directory="static", package="pkgc07")),
         }
+        # a custom not-found application configured (handle_404=...): everything else must behave as without it
+        def custom404(iface):
+            if iface == "wsgi":
+                def app(environ, start_response):
+                    start_response("404 Not Found", [("X-Custom", "1")])
+                    return [b"CUSTOM-404"]
+            else:
+                async def app(scope, receive, send):
+                    await send({"type": "http.response.start", "status": 404, "headers": [(b"x-custom", b"1")]})
+                    await send({"type": "http.response.body", "body": b"CUSTOM-404"})
+            return app
         apps = {}
+        for iface, ns in (("wsgi", wsgi), ("asgi", asgi)):
+            for kind in ("Files", "Pages"):
+                apps[("absolute+handle_404", iface, kind)] = (served, getattr(ns, kind)(served, handle_404=custom404(iface), cacheability="no-cache", max_age=0))
         for form, (abs_dir, kw) in forms.items():
             for iface, ns in (("wsgi", wsgi), ("asgi", asgi)):
                 for kind in ("Files", "Pages"):
@@ -255,7 +270,7 @@ def run(ctx):
                         path = lead + core + trail
                         nt = nontrivial("/" + core + trail)
                         for (form, iface, kind), (abs_dir, app) in apps.items():
-                            if form != "absolute" and depth > depth_other:
+                            if not form.startswith("absolute") and depth > depth_other:
                                 continue
                             if depth == 4 and (iface == "asgi" and idx % 4):
                                 continue
@@ -315,7 +330,7 @@ def replay(ctx, case):
     try:
         ns = wsgi if case["iface"] == "wsgi" else asgi
         form = case.get("directory_form", "absolute")
-        kw = {"absolute": dict(directory=served), "relative": dict(directory="static"), "relative-dot": dict(directory="./static/../static/"),
+        kw = {"absolute": dict(directory=served), "absolute+handle_404": dict(directory=served), "relative": dict(directory="static"), "relative-dot": dict(directory="./static/../static/"),
               "package": dict(directory="static", package="pkgc07")}[form]
         abs_dir = os.path.join(pkg, "static") if form == "package" else served
         app = getattr(ns, case["app"])(**kw)
